@@ -37,6 +37,10 @@ func drawNum(t *rapid.T, table []int) int {
 		return rapid.IntRange(0, 5).Draw(t, "numSmall")
 	case 1:
 		return rapid.IntRange(600, 100000).Draw(t, "numOutside") // not in any table
+	case 2:
+		// a table number with one high bit set (x32 bit and friends): not in the table either
+		n := table[rapid.IntRange(0, len(table)-1).Draw(t, "numTableHi")]
+		return n | 1<<uint(rapid.IntRange(20, 31).Draw(t, "numHiBit"))
 	default:
 		return table[rapid.IntRange(0, len(table)-1).Draw(t, "numTable")]
 	}
@@ -75,6 +79,11 @@ func drawListing(t *rapid.T) sitemodel.Listing {
 		switch rapid.IntRange(0, 7).Draw(t, "fnName") {
 		case 0:
 			fn.Name = sitemodel.Wrappers[rapid.IntRange(0, len(sitemodel.Wrappers)-1).Draw(t, "wrapperFn")]
+		case 1:
+			// symbols with blanks, as go tool objdump prints them for generated equality functions and generic shapes
+			fn.Name = []string{"type:.eq.struct { runtime.gList; runtime.n int32 }%d(SB)", "main.f%d[go.shape.struct { Key reflect.Value; Value reflect.Value }](SB)",
+				"type:.hash.[%d]struct { a int; b string }(SB)", "main.(*T%d).method-fm(SB)"}[rapid.IntRange(0, 3).Draw(t, "blankName")]
+			fn.Name = fmt.Sprintf(fn.Name, f)
 		default:
 			fn.Name = fmt.Sprintf("main.f%d(SB)", f)
 		}
